@@ -19,6 +19,7 @@ func resetProcessState() {
 	v21cf.VerifSetDisableCaching(false)
 	v21cf.VerifResetCaches()
 	caches.XPathExprCache = caches.NewLoadingCache()
+	idr.VerifResetXPathKindCache()
 	caches.RegexCache = caches.NewLoadingCache()
 	caches.TimeLocationCache = caches.NewLoadingCache()
 	transform.VerifDisableTransformCache = false
